@@ -39,6 +39,16 @@ def _gen_case(rng):
         vm = vmb.setdefault(int(b), rng.choice([1.0, 1.01, 1.02, 0.99]))
         pp.create_gen(net, b, p_mw=pf.g8(rng, 0, 16), vm_pu=vm, scaling=rng.choice([1.0, 1.0, 0.5]),
                       in_service=rng.random() < 0.9, slack_weight=rng.choice(W))
+    # several reference buses: further ext_grids / slack gens on other buses (newtonpf keeps ref[0], turns ref[1:] into PV)
+    if rng.random() < 0.4:
+        cand = [b for b in buses if b not in vmb]
+        rng.shuffle(cand)
+        for b in cand[:rng.randint(1, 3)]:
+            vm = vmb.setdefault(int(b), rng.choice([1.0, 1.01, 1.02]))
+            if rng.random() < 0.6:
+                pp.create_ext_grid(net, b, vm_pu=vm, va_degree=float(net.ext_grid.va_degree.values[0]), slack_weight=rng.choice(W[1:]))
+            else:
+                pp.create_gen(net, b, p_mw=pf.g8(rng, 0, 16), vm_pu=vm, slack=True, slack_weight=rng.choice(W))
     nx = rng.choice([0, 0, 1, 1, 2])
     gen_buses = set(int(b) for b in net.gen.bus.values) | set(int(b) for b in net.ext_grid.bus.values)
     free = [b for b in buses if b not in gen_buses]
@@ -61,6 +71,8 @@ def _gen_case(rng):
     elif r < 0.04:
         net.ext_grid["slack_weight"] = -1.0
     opts = {"numba": False, "distributed_slack": True, "voltage_depend_loads": rng.random() < 0.7}
+    if rng.random() < 0.6:
+        opts["lightsim2grid"] = False        # pandapower's own newtonpf; otherwise lightsim2grid is picked automatically when possible
     return net, opts
 
 
@@ -187,6 +199,8 @@ def _one(ctx, rng, T, given=None, sample=False):
     nontriv = len(parts) >= 2
     ctx.count("participants_%d" % min(sum(1 for _, w, _ in gens if w != 0), 6))
     ctx.count("xwards_%d" % len(net.xward))
+    ctx.count("solver_%s" % ("lightsim2grid" if net._options.get("lightsim2grid") else "newtonpf"))
+    ctx.count("reference_buses_%d" % min(len(set(int(b) for b in net._ppc["internal"]["ref"])) if "ref" in net._ppc["internal"] else 0, 4))
     # (b) gen rows after pfsoln with widened reference sets
     T["gen_t"].append("run_ds_gens %s %s %s %s %s %s" % (pf.net_term(x), pf.ref_term(x), cq.lst([cq.q(v) for v in bw_i]), pf.vs_term(x), pf.ss_term(x), cq.nat(x.nb)))
     T["gen_p"].append(([float(v) for v in g[:, PG]], [float(busr[k, PD]) for k in range(x.nb)], case))
